@@ -83,7 +83,9 @@ func hostsResolve(r HostResolver, q query.Query, buf []byte) (n int, i resolver.
 	h.Response = true
 	h.RCode = dnsmessage.RCodeSuccess
 	h.RecursionAvailable = true
-	b := dnsmessage.NewBuilder(buf[:0], h)
+	// Build the answer in its own buffer: buf may hold the upstream response,
+	// which must survive when building the local answer fails.
+	b := dnsmessage.NewBuilder(nil, h)
 	_ = b.StartQuestions()
 	_ = b.Question(q1)
 	_ = b.StartAnswers()
@@ -119,8 +121,14 @@ func hostsResolve(r HostResolver, q query.Query, buf []byte) (n int, i resolver.
 		return
 	}
 
-	buf, err = b.Finish()
-	return len(buf), i, err
+	msg, err := b.Finish()
+	if err != nil {
+		return 0, i, err
+	}
+	if len(msg) > len(buf) {
+		return 0, i, errors.New("answer too large")
+	}
+	return copy(buf, msg), i, nil
 }
 
 func isPrivateReverse(qname string) bool {
